@@ -297,6 +297,7 @@ class Evaluator:
         self.wsums = []                    # registry of window sums / pair sums: dicts
         self.terms = []                    # registry of opaque per-residue terms (Rat)
         self.int_atoms = set()             # atoms known to be non-negative integers (parity analysis)
+        self.pos_int_atoms = set()         # ... of those, the ones known to be >= 1
         self.universe = LETTERS            # characters an element of the sequence string may be
         self.model_ctors = False           # model ClassName(...) as an object value carrying its arguments
         self.extern_calls = {}             # unparse(func) -> callable(node, [arg values]) for calls outside the package
@@ -1818,7 +1819,10 @@ class Evaluator:
             return None
         ci = math.ceil(c) if ceil else math.floor(c)
         if c < 0 and not ceil:
-            return None    # int() truncates toward zero: only claim when the value is certainly >= 0
+            # int() truncates toward zero: only claim floor when the value is certainly >= 0.  With every atom >= 1 each monomial is at least
+            # its coefficient, so the value is at least (sum of coefficients) + c
+            if not (all(a in self.pos_int_atoms for k in ip for a, _ in k) and sum(ip.values()) + c >= 0):
+                return None
         return Rat(Poly(ip)) + Rat.const(ci)
 
     def numpy(self, attr, node, env, fr):
